@@ -20,6 +20,13 @@ pub mod p_c12;
 pub mod p_names;
 pub mod p_parse;
 pub mod p_iter;
+pub mod p_summary;
+pub mod p_uncompress;
+pub mod p_compress;
+pub mod p_rename;
+pub mod p_view;
+pub mod p_mutate;
+pub mod rn_gen;
 
 #[macro_use]
 pub mod registry;
